@@ -6,6 +6,7 @@ import (
 	"fmt"
 	"math/rand"
 	"strings"
+	"sync"
 	"time"
 
 	"github.com/gammazero/nexus/v3/stdlog"
@@ -98,6 +99,9 @@ type dealer struct {
 
 	actionChan chan func()
 	stopped    chan struct{}
+
+	// Call timeout goroutines that may still submit an action.
+	timers sync.WaitGroup
 
 	// Generate registration IDs.
 	idGen *wamp.IDGen
@@ -402,6 +406,17 @@ func (d *dealer) removeSession(sess *wamp.Session) {
 
 // close stops the dealer, letting already queued actions finish.
 func (d *dealer) close() {
+	// Stop all call timeout timers and wait for their goroutines to finish,
+	// so that none of them submits an action after the action channel is
+	// closed.
+	d.actionChan <- func() {
+		for _, invk := range d.invocations {
+			if invk.timerCancel != nil {
+				invk.timerCancel()
+			}
+		}
+	}
+	d.timers.Wait()
 	close(d.actionChan)
 	<-d.stopped
 	if d.debug {
@@ -890,8 +905,9 @@ func (d *dealer) syncCall(caller *wamp.Session, msg *wamp.Call) {
 	//
 	// The error message that is returned to the Caller MUST use
 	// wamp.error.timeout as the reason URI.
-	if timeout > 0 {
-		// Timer removed if context canceled, call cancelled if timeout.
+	if timeout > 0 && invk.timerCancel == nil {
+		// Timer removed if context canceled, call cancelled if timeout. For a
+		// progressive call the timer is started by the first CALL only.
 		var timerCtx context.Context
 		timerCtx, invk.timerCancel = context.WithTimeout(context.Background(),
 			time.Duration(timeout)*time.Millisecond)
@@ -899,7 +915,9 @@ func (d *dealer) syncCall(caller *wamp.Session, msg *wamp.Call) {
 		// Start goroutine to cancel pending call on timeout. Works like Cancel
 		// with mode=killnowait, and includes an error message argument "call
 		// timeout"
+		d.timers.Add(1)
 		go func() {
+			defer d.timers.Done()
 			<-timerCtx.Done()
 			if errors.Is(timerCtx.Err(), context.Canceled) {
 				// Timer canceled. Got response from callee, or caller canceled
